@@ -408,7 +408,15 @@ class MinFlowDecomp(pathmodel.AbstractPathModelDAG): # Note that we inherit from
     def _get_lowerbound_with_min_gen_set(self) -> int:
 
         min_gen_set_start_time = time.perf_counter()
-        all_weights = list(set({self.G.edges[e][self.flow_attr] for e in self.G.edges() if self.flow_attr in self.G.edges[e]}))
+        # Ignored edges (which may carry arbitrary values) do not take part in the bound
+        all_weights = list(set({self.G.edges[e][self.flow_attr] for e in self.G.edges() if self.flow_attr in self.G.edges[e] and e not in self.edges_to_ignore}))
+        # The total flow is known only if no edge exiting a source node is ignored or lacks the flow value;
+        # otherwise this lower bound is not available
+        for v in self.G.nodes():
+            if self.G.in_degree(v) == 0:
+                for u, w, data in self.G.out_edges(v, data=True):
+                    if (u, w) in self.edges_to_ignore or self.flow_attr not in data:
+                        return None
         # Get the source_flow as the sum of the flow values on all the edges exiting the source nodes
         # (i.e., nodes with in-degree 0)
         source_flow = self._get_source_flow()
@@ -443,8 +451,9 @@ class MinFlowDecomp(pathmodel.AbstractPathModelDAG): # Note that we inherit from
             min_gen_set_lowerbound = len(self._generating_set)
             utils.logger.info(f"{__name__}: found a min gen set solution with {min_gen_set_lowerbound} elements ({self._generating_set})")
         else:
+            # Without a generating set this lower bound is not available (the search over k remains exact)
             utils.logger.info(f"{__name__}: did NOT find a min gen set solution")
-            exit(0)
+            return None
         
         self.solve_statistics["min_gen_set_solve_time"] = time.perf_counter() - min_gen_set_start_time
         
